@@ -1194,6 +1194,96 @@ def run(chk):
     for k_ in reader_only:
         if k_ not in used_ro:
             chk.info(r_s, "tables/c05_reader_only.json: entry %s::%s not needed on this tree" % k_)
+    # ---- C05.altcond: a conversion that writer and reader both apply conditionally is applied under the same condition
+    r_ac = chk.rule("C05.altcond", "where the writer converts a slot only under a condition (c ? from_si(m, x) : x) and the reader converts it back only under a condition, the two conditions are the same predicate once the writer's accessors are replaced by the slots they are stored in and the reader's subscripts by those slots (a positive unit factor keeps signs and zero): otherwise a dimensionless ratio is scaled like a length, or a length taken over unconverted, in every unit system whose factor is not 1", floor=1)
+
+    def slot_ref(e):
+        """'ISeg::X' for iseg[VI::ISeg::X] / rSeg[base + Ix::X] style subscripts"""
+        sb = subscript(e) if e.get("k") in ("Idx", "OpCall") else None
+        if not sb:
+            return None
+        en = [x for x in walk(sb[1]) if x["k"] == "Ref" and x.get("d") == "Enum" and (x.get("q") or "").startswith(VI)]
+        if len(en) != 1:
+            return None
+        q = en[0]["q"][len(VI):].split("::")
+        return "%s::%s" % (q[0], q[-1])
+
+    def norm_cond(e, leafmap, env, depth=0):
+        e = strip(e)
+        k = e.get("k")
+        if k == "Bin" and e.get("op") in ("||", "&&", "==", "!=", "<", ">", "<=", ">="):
+            return "(%s %s %s)" % (norm_cond(e["c"][0], leafmap, env, depth), e["op"], norm_cond(e["c"][1], leafmap, env, depth))
+        if k == "Un" and e.get("op") in ("!", "-"):
+            return "%s%s" % (e["op"], norm_cond(e["c"][0], leafmap, env, depth))
+        if k in ("Int", "Flt"):
+            v = float(e["v"])
+            return str(int(v)) if v == int(v) else repr(v)
+        sr = slot_ref(e)
+        if sr:
+            return sr
+        if k == "Ref" and e.get("n") in env and depth < 4:
+            return norm_cond(env[e["n"]], leafmap, env, depth + 1)
+        m_, o_ = meth(e)
+        if m_ and m_ in leafmap:
+            return leafmap[m_]
+        return "?" + show(e)[:40]
+    # reader side: helper functions with a conditional to_si
+    n_ac = 0
+    for h in fx.fns:
+        if not h.get("body") or not h["file"].endswith(("rst/segment.cpp", "rst/well.cpp", "rst/connection.cpp", "rst/group.cpp")):
+            continue
+        conv = [(n, c) for n in walk(h["body"]) if n["k"] == "If" for c in walk(n["then"]) if c["k"] == "Return" and any((x.get("m") or "") == "to_si" for x in walk(c.get("e") or {}))]
+        plain = [c for c in stmt_list(h["body"]) if c["k"] == "Return" and not any((x.get("m") or "") == "to_si" for x in walk(c.get("e") or {}))]
+        if len(conv) != 1 or not plain:
+            continue
+        iff, ret = conv[0]
+        envr = {v["n"]: v["init"] for n in walk(h["body"]) if n["k"] == "Decl" for v in n["vars"] if isinstance(v.get("init"), dict)}
+        conv_call = [x for x in walk(ret["e"]) if (x.get("m") or "") == "to_si"][0]
+        src = conv_call["a"][1] if len(conv_call.get("a") or []) > 1 else None
+        src = envr.get(strip(src).get("n"), src) if src is not None and strip(src).get("k") == "Ref" else src
+        slot = slot_ref(strip(src)) if src is not None else None
+        if not slot:
+            continue
+        cr = norm_cond(iff["cond"], {}, envr)
+        # writer side: the assignment of that slot with a conditional from_si
+        arr, item = slot.split("::")
+        wsites = []
+        for g in fx.fns:
+            if not g.get("body") or not g["file"].endswith(("AggregateMSWData.cpp", "AggregateWellData.cpp", "AggregateConnectionData.cpp", "AggregateGroupData.cpp")):
+                continue
+            envw = {v["n"]: v["init"] for n in walk(g["body"]) if n["k"] == "Decl" for v in n["vars"] if isinstance(v.get("init"), dict)}
+            acc2slot = {}
+            for n in walk(g["body"]):
+                if n["k"] == "Bin" and n.get("asg") and n.get("op") == "=" and slot_ref(strip(n["c"][0])):
+                    for x in walk(n["c"][1]):
+                        m_, o_ = meth(x)
+                        if m_ and o_ is not None and strip(o_).get("k") == "Ref" and not x.get("a"):
+                            acc2slot.setdefault(m_, slot_ref(strip(n["c"][0])))
+            for n in walk(g["body"]):
+                if n["k"] == "Bin" and n.get("asg") and n.get("op") == "=" and slot_ref(strip(n["c"][0])) == slot:
+                    rhs = strip(n["c"][1])
+                    if rhs.get("k") == "Cond" and any((x.get("m") or "") == "from_si" for x in walk(rhs["c"][1])) and not any((x.get("m") or "") == "from_si" for x in walk(rhs["c"][2])):
+                        wsites.append((g, n, rhs["c"][0], acc2slot, envw))
+        for g, n, cw_e, acc2slot, envw in wsites:
+            # the accessor map of sibling writer functions of the same file (ISeg part is written by another function)
+            full = dict(acc2slot)
+            for g2 in fx.fns:
+                if g2.get("body") and g2["file"] == g["file"]:
+                    for n2 in walk(g2["body"]):
+                        if n2["k"] == "Bin" and n2.get("asg") and n2.get("op") == "=" and slot_ref(strip(n2["c"][0])):
+                            for x in walk(n2["c"][1]):
+                                m_, o_ = meth(x)
+                                if m_ and o_ is not None and strip(o_).get("k") == "Ref" and not x.get("a"):
+                                    full.setdefault(m_, slot_ref(strip(n2["c"][0])))
+            cw = norm_cond(cw_e, full, envw)
+            n_ac += 1
+            key = "%s<-%s@%s" % (slot, g["n"], n_ac)
+            chk.instance(r_ac, key, sample=dict(slot=slot, reader=h["q"], reader_condition=cr, writer=g["q"], writer_condition=cw))
+            if "?" in cr or "?" in cw:
+                raise core.AnalysisBroken("C05.altcond: condition of the conditional conversion of %s not expressible over slots (reader %s / writer %s)" % (slot, cr, cw))
+            if cr != cw:
+                chk.violation(r_ac, key, "%s: %s converts the stored value with to_si only when %s, but %s wrote it with from_si only when %s: for the records where the two predicates differ the restarted schedule holds a value scaled by the unit factor (or its inverse)" % (slot, h["q"], cr, g["q"], cw), h["file"], iff["l"])
+
     # ---- C05.cache: lazily built output caches are dropped when what they were built from changes
     from verif import lazycache
     r_lc = chk.rule("C05.cache", "a mutable member that a const accessor fills when it is empty (UDQActive::output_data behind iuad(), SummaryState::well_names, UDQDefine::string_data, ...) is emptied on every path from a statement that modifies one of the members it is built from to the return of that function: otherwise the restart file is written from records of a schedule that no longer exists (IUAD out of step with IUAP)", floor=6)
